@@ -354,7 +354,7 @@ func genScenario() *netctl.Scenario {
 			if lg := genLogger(x); lg != nil {
 				opts = append(opts, lg)
 			}
-			g.cl = nscen.NewClient(x, "c", c, opts...)
+			g.cl = newClient(x, "c", c, opts...)
 			ctxA, cancelA := context.WithCancel(context.Background())
 			g.cancelA = cancelA
 			x.OnCleanup(func() {
